@@ -209,6 +209,7 @@ class Executor:
         self.fresh = 0
         self.call_log = []
         self._rescache = {}
+        self._promoted_vals = {}
 
     # ------------------------------------------------------------------ utilities
     def fresh_var(self, base, sort):
@@ -388,6 +389,8 @@ class Executor:
                 return self.NAMED_CONSTS[val]
             if re.search(r"as std::mem::SizedTypeProperties>::(ALIGN|SIZE)$", val):
                 return 8
+            if re.search(r"::promoted\[\d+\]$", val):
+                return self.eval_promoted(st, val)
             m = re.match(r"^ZeroSized: (.*)$", val)
             if m:
                 v = m.group(1)
@@ -399,6 +402,35 @@ class Executor:
                 return mk_enum(ty, vn, [])
             return FnItem(val)
         return val  # integers
+
+    def eval_promoted(self, st, name):
+        """promoted constant: run its body once, keep the value in a root-frame slot"""
+        tail = "::".join(ctor_strip_generics(name).split("::")[-2:])
+        mod = name.split("::")[0]
+        cands = [f for f in self.fns if not f.args and f.name.endswith(tail) and "promoted[" in f.name]
+        c2 = [f for f in cands if f.name.split("::")[0] == mod] or cands
+        if len(c2) != 1:
+            raise Unsupported("promoted constant %s: %d candidates" % (name, len(c2)))
+        fn = c2[0]
+        depth = len(st.frames)
+        s2, rv = self.call_fn(st, fn, [], {})
+        # call_fn popped the frame; a reference into it must be re-homed
+        if isinstance(rv, Ref) and rv.depth == depth:
+            # the referenced local was in the popped frame: re-run keeping the frame's locals
+            fr = Frame(fn, {})
+            st.frames.append(fr)
+            tmp = st
+            for b in sorted(fn.blocks):
+                pass
+            st.frames.pop()
+            val = self._promoted_vals.get((fn.name, rv.local))
+            if val is None:
+                raise Unsupported("promoted constant %s returns a reference into its own frame" % name)
+            self.fresh += 1
+            slot = 700000 + self.fresh
+            st.frames[0].locals[slot] = val
+            return Ref(0, slot, rv.path)
+        return rv
 
     def eval_rvalue(self, st, rv):
         k = rv[0]
@@ -420,6 +452,11 @@ class Executor:
                 if isinstance(a, bool) or (T.is_t(a) and a.sort == "B"):
                     return T.bnot(a)
                 raise Unsupported("bitwise not")
+            if rv[1] == "PtrMetadata":
+                tgt = self.load(st, a) if isinstance(a, Ref) else a
+                if isinstance(tgt, Agg):
+                    return len(tgt.fields)
+                raise Unsupported("PtrMetadata of %r" % (tgt,))
             raise Unsupported("unop " + rv[1])
         if k == "ref":
             return self.resolve_place(st, rv[2])
@@ -830,6 +867,9 @@ class Executor:
             raise Unsupported("arms of %s do not merge at return (%d groups)" % (fn.name, len(merged)))
         s = merged[0]
         fr = s.frames.pop()
+        if "promoted[" in fn.name:
+            for l, v in list(fr.locals.items()):
+                self._promoted_vals[(fn.name, l)] = v
         rv = fr.locals.get(0, Agg("tuple", []))
         if rv is POISON and fn.ret.strip() == "()":
             rv = Agg("tuple", [])
@@ -948,6 +988,8 @@ def merge_states(states, ex, at_return=False):
     if at_return:
         for s in states:
             top = s.frames[-1]
+            if "promoted[" in top.fn.name:
+                continue
             top.locals = {0: top.locals[0]} if 0 in top.locals else {}
     if len(states) == 1:
         return states
